@@ -33,6 +33,10 @@ pub struct Plan {
   pub replicas: Vec<ReplicaPlan>,
   /// which replica executes its next pending command, in order
   pub schedule: Vec<usize>,
+  /// `Interpreter.max_steps` (the state-machine transition budget) of every replica of the run; it
+  /// has no business bounding `step` requests. None = the default.
+  #[serde(default)]
+  pub max_steps: Option<usize>,
 }
 
 enum Cmd { Interpret, Step(u64), Quit }
@@ -130,12 +134,47 @@ pub fn relational_program(rng: &mut Rng) -> (String, String) {
   }
 }
 
+/// Programs whose values pass through hash-keyed bookkeeping with more than one candidate: several
+/// enums sharing a variant name (which enum does `:ok(1)` belong to?), records and tables with many
+/// fields, maps with many keys, kind definitions. Only an order dependence can make replicas differ.
+pub fn hash_order_program(rng: &mut Rng) -> (String, String) {
+  let vnames = ["ok", "no", "none", "some", "err"];
+  match rng.below(4) {
+    0 | 1 => {
+      let n_enums = 2 + rng.usize(3);
+      let shared = *rng.pick(&vnames);
+      let mut lines = vec![];
+      let enames = ["aa", "bb", "cc", "dd"];
+      for e in 0..n_enums {
+        let other = vnames[(e + 1 + rng.usize(3)) % vnames.len()];
+        let other = if other == shared { "zz" } else { other };
+        if rng.chance(1, 2) { lines.push(format!("<{}> := :{}<u64> | :{}", enames[e], shared, other)); } else { lines.push(format!("<{}> := :{} | :{}<u64>", enames[e], other, shared)); }
+      }
+      lines.push(format!("x := :{}({}u64)", shared, 1 + rng.below(9)));
+      if rng.chance(1, 2) { lines.push(format!("y := :{}({}u64)", shared, 1 + rng.below(9))); }
+      ("hash-order-enums-sharing-a-variant".into(), lines.join("\n"))
+    }
+    2 => {
+      let n = 4 + rng.usize(5);
+      let fields: Vec<String> = (0..n).map(|i| format!("f{}: {}", i, rng.below(100))).collect();
+      let pick = rng.usize(n);
+      ("hash-order-wide-record".into(), format!("r := {{{}}}\nv := r.f{}\nw := r", fields.join(", "), pick))
+    }
+    _ => {
+      let n = 3 + rng.usize(5);
+      let kv: Vec<String> = (0..n).map(|i| format!("\"k{}\": {}", i, rng.below(100))).collect();
+      let pick = rng.usize(n);
+      ("hash-order-wide-map".into(), format!("m := {{{}}}\nv := m{{\"k{}\"}}\nw := m", kv.join(", "), pick))
+    }
+  }
+}
+
 pub fn plan(seed: u64, k: u64, corpus: &[(String, String)]) -> Plan {
   let mut rng = Rng::for_run(seed, WORLD_ID * 16, k);
   let (name, text) = if (k as usize) < corpus.len() { corpus[k as usize].clone() }
     else { match rng.below(10) {
       0 | 1 => template_program(&mut rng),
-      2 => relational_program(&mut rng),
+      2 => if rng.chance(1, 3) { hash_order_program(&mut rng) } else { relational_program(&mut rng) },
       3..=5 => ("generated-with-assignments".to_string(), generated_program(&mut rng, true)),
       6 => ("generated-no-assignments".to_string(), generated_program(&mut rng, false)),
       _ => corpus[rng.usize(corpus.len())].clone(),
@@ -150,7 +189,9 @@ pub fn plan(seed: u64, k: u64, corpus: &[(String, String)]) -> Plan {
   let mut slots = vec![];
   for (i, r) in replicas.iter().enumerate() { for _ in 0..(1 + r.steps.len()) { slots.push(i); } }
   rng.shuffle(&mut slots);
-  Plan { program_name: name, program_text: text, replicas, schedule: slots }
+  // a low transition budget only for programs without a state-machine invocation (there it is semantic)
+  let max_steps = if !text.contains('#') && rng.chance(1, 5) { Some(*rng.pick(&[1usize, 2, 3, 5])) } else { None };
+  Plan { program_name: name, program_text: text, replicas, schedule: slots, max_steps }
 }
 
 #[derive(Clone, Debug, Serialize, Deserialize)]
@@ -207,11 +248,13 @@ pub fn execute(pl: &Plan) -> RunOut {
     let (rtx, rrx) = channel::<Reply>();
     let tree = tree.clone();
     let rp = r.clone();
+    let max_steps = pl.max_steps;
     let h = std::thread::Builder::new().stack_size(crate::hashseed::NODE_STACK).spawn(move || {
       crate::hashseed::set_thread_hash_seed(rp.hash_seed);
       let mut node = Node::new();
       node.intrp.profile = rp.profile;
       node.intrp.trace = rp.trace;
+      if let Some(ms) = max_steps { node.intrp.max_steps = ms; }
       while let Ok(cmd) = crx.recv() {
         let outcome = match cmd {
           Cmd::Interpret => node.interpret(&tree),
